@@ -43,6 +43,11 @@ CLAIMED.update({
              note='DSGSem connection semantics is my reading of docs/theory.md; graph level uses the logged per-pair limits (sanity-checked), processor level the documented limit rule (SemCap); build/project trusted; known findings attributed by clause + structural trigger',
              text='Graph level: for every selection-final instance of every generated description with a connection choice (1-3 sources/targets, permanent or conditional, grouping connectors, exclusion edges; theory-page example) the offered connection sets, validate_conn_edges on the whole box of edge multisets and the application of every offered set are recorded; TLC checks offered = ValidConnSets for the connectors present (missing/extra/duplicate), validate <=> membership, applied edges = chosen set on the right node set, feasible result. Processor level: decoded connection edges are a valid set for the decoded scenario, every scenario with a valid set is reached when the declared space is decoded completely, scenarios without one are never decoded to, and n_valid equals the reference count computed by TLC.'),
 })
+CLAIMED.update({
+ 'C19': dict(cat='model_checking', tech='PlusCal/TLA+ model of run_timeout (TimeLimiter.tla) checked by TLC for all interleavings (safety S1-S4, termination under fairness); complete model behaviours forced onto the real code through hook points by a director (schedule-controlled replay); Mon_TL monitor', ref='3 C19',
+             note='hook points added by commit 8b39c52 (guard ADSG_CORE_VERIF, inert otherwise); behaviours the director cannot force are skipped and counted; nested calls: model (LEVELS=2) + uncontrolled executions; native blocking = time.sleep; delivered exception class is CPython\'s business (SystemError/KeyboardInterrupt)',
+             text='TLC explores every interleaving of caller, worker function, worker thread exit and timer for one call (677 states: outcome correctness, nothing running after return, caller never interrupted, nothing left behind, termination all hold for the configuration the tree implements) and for two nested calls (the tree\'s configuration violates NoneRunningAfterReturn - the recorded known finding; with a join on the exception path it holds, 864k states). All 170 complete single-call behaviours are emitted; the 109 that can be forced (completion racing expiry at each of the caller\'s steps, injection, delivery, swallow-once, die, own TimeoutError) are executed against the real run_timeout with the schedule enforced through the hook points, and TLC checks outcome = model outcome, hook order, delivery count, no worker executing after return, no interrupt in the caller, later call unaffected. An uncontrolled sweep (durations 0.1x-2.6x the limit, five function kinds, nested calls) is validated against the same clauses.'),
+})
 NA = {}
 
 def check_entry(pid):
@@ -55,7 +60,7 @@ def check_entry(pid):
 m = {"version": 1, "setup_cmd": "./check setup",
      "hooks": {"guard": "ADSG_CORE_VERIF", "enable": "ADSG_CORE_VERIF=1 in the environment (./check sets it); hooks are no-ops unless the harness also installs a director",
                "baseline_off_cmd": "cd /repo && env -u ADSG_CORE_VERIF /venv/bin/python -m pytest -ra -q -p no:cacheprovider --timeout=900 --continue-on-collection-errors",
-               "source_commits": [], "add_only": True},
+               "source_commits": ["8b39c52"], "add_only": True},
      "engines": [{"name": "tlc-trace-monitor", "path": "spec/", "serves_properties": sorted(CLAIMED), "kind_free_text": "explicit TLA+ specification (spec/*.tla) checked by TLC; total trace monitors validate traces recorded from the real code; TLC-generated behaviours are replayed into the code"}],
      "checks": [check_entry(p['id']) for p in props if p['id'] in CLAIMED],
      "not_applicable": [{"property_id": p['id'], "reason": NA.get(p['id'], "check not built yet (work in progress; DESIGN.md section 7 gives the build order) - not a claim that the technique cannot apply")} for p in props if p['id'] not in CLAIMED],
